@@ -27,7 +27,7 @@ CanNest(p, c) ==
       [] p = "H"               -> c \in TextKinds \cup {"INL", "A"}
       [] p = "AJ"              -> c \in {"T", "t", "INL"}
       [] p \in InlineKinds     -> c \in TextKinds \cup {"INL", "BR"}
-      [] p = "PRE"             -> c \in TextKinds \cup {"INL", "BR"}
+      [] p = "PRE"             -> c \in TextKinds \cup {"INL", "BR", "DIV", "P", "UL", "OL"}  \* highlighters put block lines into pre
       [] p = "HIN"             -> c \in TextKinds \cup {"INL"}
       [] p \in {"SKS", "SKF"}  -> c \in {"T", "t"}
       [] p \in FigKinds        -> c \in {"T", "t", "INL", "HIN", "SKS", "A", "CMT"}
